@@ -150,6 +150,9 @@ def parse_time_expression(tick_rate: typing.Optional[int], frame_rate: typing.Op
   m = _CLOCK_TIME_FRACTION_RE.match(time_expr)
 
   if m:
+    if int(m.group(2)) > 59 or Fraction(m.group(3)) >= 61:
+      raise ValueError("Minutes or seconds out of range")
+
     return Fraction(m.group(1)) * 3600 + \
             Fraction(m.group(2)) * 60 + \
             Fraction(m.group(3))
@@ -157,6 +160,9 @@ def parse_time_expression(tick_rate: typing.Optional[int], frame_rate: typing.Op
   m = _CLOCK_TIME_FRAMES_RE.match(time_expr)
 
   if m and frame_rate is not None:
+    if int(m.group(2)) > 59 or int(m.group(3)) > 60:
+      raise ValueError("Minutes or seconds out of range")
+
     frames = Fraction(m.group(4)) if m.group(4) else 0
 
     if frames >= frame_rate:
